@@ -219,6 +219,35 @@ def run(ctx):
             cases += lc
             results += lr
     if not rep:
+        # ---- a timezone-AWARE reference time: the relative result is a fixed instant (the reference's), TIMEZONE does not
+        # re-read it, TO_TIMEZONE re-expresses it; awareness follows the setting (default: naive, the string names no zone)
+        aware = []
+        for _ in range(1200 if ctx.quick() else 20000):
+            A = pick_zone()
+            T = pick_zone()
+            B = pick_zone()
+            if A[1] is None or B[1] is None or isinstance(A[0], str) and not hasattr(A[1], "localize"):
+                continue
+            w = datetime.datetime(rng.randint(1971, 2037), rng.randint(1, 12), rng.randint(1, 28), rng.randint(0, 23), rng.randint(0, 59), rng.randint(0, 59))
+            offA = local_ok(A[1], w)
+            if offA is None:
+                continue
+            inst = w - datetime.timedelta(seconds=offA)
+            has_to = rng.random() < 0.6
+            rata = rng.choice(RATAS)
+            offTo = off_at(B[1], inst)
+            st = {"RELATIVE_BASE": {"dt": [w.year, w.month, w.day, w.hour, w.minute, w.second, 0], "tz": A[0] if A[0] in pytz_names else offA}}
+            if rng.random() < 0.8:
+                st["TIMEZONE"] = T[0]
+            if has_to:
+                st["TO_TIMEZONE"] = B[0]
+            if rata != "default":
+                st["RETURN_AS_TIMEZONE_AWARE"] = rata == "true"
+            aware.append({"parser": "relative", "own": False, "w": [w.year, w.month, w.day, w.hour, w.minute, w.second, 0], "offA": offA,
+                          "offT": offTo if has_to else offA, "offTz": offA, "offTo": offTo, "hasTo": has_to, "rata": rata, "s": rng.choice(["now", "0 seconds ago"]),
+                          "kw": {"languages": ["en"]}, "settings": st, "api": "parse", "probe": False, "zones": ["aware base " + str(A[0]), B[0] if has_to else None]})
+        cases += aware
+        results += core.run_cases(ctx, "harness.lib", "call_parse", aware)
         # with TIMEZONE given explicitly the zone of the PROCESS must not matter: a sample of the cases above (all those
         # whose TIMEZONE sits at offset zero - UTC, Abidjan, London in winter - and a share of the rest) runs again in
         # workers whose TZ is far from UTC
